@@ -22,6 +22,19 @@ def main(repo, outdir):
         inner_cfg = "#[cfg" in body
         bare = re.findall(r"(?<![\w:$])(?:reference::|Reference::|alloc::|std::)", re.sub(r"\$crate::[\w:]+", "", body))
         defs.append((cfg, arms, inner_cfg, len(bare) == 0))
+    # the arms of `impl Clone for ReferenceUnsafe`: (variant matched, variant built, how the payload is duplicated)
+    cm = re.search(r"impl<[^>]*>\s*Clone\s+for\s+ReferenceUnsafe<[^>]*>\s*\{(.*?)\n\}", src, re.S)
+    clone_arms = []
+    if cm:
+        for a in re.finditer(r"Self::(\w+)\((\w+)\)\s*=>\s*Self::(\w+)\((.*?)\),\s*\n", cm.group(1)):
+            vin, var, vout, expr = a.group(1), a.group(2), a.group(3), a.group(4).strip()
+            if expr == "*" + var: how = "copy"
+            elif re.fullmatch(r"Rc::clone\(&?%s\)" % var, expr): how = "Rc::clone"
+            elif re.fullmatch(r"Arc::clone\(&?%s\)" % var, expr): how = "Arc::clone"
+            else: how = "other: " + expr.replace('"', "'")
+            clone_arms.append((vin, vout, how))
+    em = re.search(r"pub enum ReferenceUnsafe<[^>]*>\s*\{(.*?)\n\}", src, re.S)
+    variants = re.findall(r"^\s*(\w+)\(", re.sub(r"///[^\n]*", "", em.group(1)), re.M) if em else []
     os.makedirs(outdir, exist_ok=True)
     with open(os.path.join(outdir, "GenToDyn.v"), "w") as f:
         f.write("(* GENERATED from src/reference.rs by tools/gen_todyn.py *)\nFrom Coq Require Import List String Bool.\nImport ListNotations.\nLocal Open Scope string_scope.\n")
@@ -29,6 +42,9 @@ def main(repo, outdir):
         f.write("Definition to_dyn_defs : list (string * list string * bool * bool) := [\n")
         f.write(";\n".join('  ("%s", [%s], %s, %s)' % (c.replace('"', "'"), "; ".join('"%s"' % a for a in arms), str(ic).lower(), str(cp).lower()) for c, arms, ic, cp in defs))
         f.write("\n].\n")
+        f.write("(* impl Clone for ReferenceUnsafe: (variant matched, variant built, how the payload is duplicated) *)\n")
+        f.write("Definition clone_arms : list (string * string * string) := [%s].\n" % "; ".join('("%s", "%s", "%s")' % a for a in clone_arms))
+        f.write("Definition reference_variants : list string := [%s].\n" % "; ".join('"%s"' % v for v in variants))
     return defs
 
 if __name__ == "__main__":
